@@ -304,29 +304,13 @@ func CheckGates(c *Ctx, prop string, specs []GateSpec) {
 			c.R.Ok("APO-EXACT", s.Func, "sink="+s.Sink+" no new rejection condition", pos, "", true)
 		}
 		if len(ft.Loops) > 0 {
-			curL := a.FullLoops()
-			split := func(s string) (string, int) {
-				if i := strings.LastIndex(s, " ~exits="); i > 0 {
-					n := 0
-					fmt.Sscanf(s[i+8:], "%d", &n)
-					return s[:i], n
-				}
-				return s, 0
-			}
-			for _, l := range ft.Loops {
-				ok := false
-				lc, ln := split(l)
-				for _, cl := range curL {
-					cc, cn := split(cl)
-					if (cc == lc || wildMatch(lc, cc)) && cn <= ln {
-						ok = true // same loop, no more early exits than before
-					}
-				}
-				if ok {
-					c.R.Ok("APO-LOOP", s.Func, l, pos, "loop examines every element (no early exit but return/panic)", true)
-				} else {
-					c.R.Bad("APO-LOOP", s.Func, l, pos, "this loop can now be left early (break) with elements unexamined, or no longer exists in this form")
-				}
+			frozenN, curN := 0, 0
+			fmt.Sscanf(ft.Loops[0], "early-exits<=%d", &frozenN)
+			fmt.Sscanf(a.FullLoops()[0], "early-exits<=%d", &curN)
+			if curN <= frozenN {
+				c.R.Ok("APO-LOOP", s.Func, ft.Loops[0], pos, fmt.Sprintf("%d break-like loop exits", curN), true)
+			} else {
+				c.R.Bad("APO-LOOP", s.Func, ft.Loops[0], pos, fmt.Sprintf("the loops of this function now have %d break-like exits (were %d): some elements may be left unexamined", curN, frozenN))
 			}
 		}
 		cur := map[string]apo.Gate{}
